@@ -86,7 +86,8 @@ def matches(exp, out):
 
 def _match_plain(exp, out):
     if isinstance(exp, dict) and "rej" in exp:
-        return isinstance(out, dict) and "exc" in out and (out["exc"] in exp["rej"] or "*" in exp["rej"])
+        return (isinstance(out, dict) and "exc" in out and (out["exc"] in exp["rej"] or "*" in exp["rej"])
+                and ("late" not in out or "late" in exp))
     return exp == out
 
 
@@ -97,6 +98,8 @@ def first_diff(exp, out, path=""):
     if isinstance(exp, dict) and "anyof" in exp:
         return (path or "outcome") + ".anyof"
     if isinstance(exp, dict) and "rej" in exp:
+        if isinstance(out, dict) and "exc" in out and "late" in out and "late" not in exp:
+            return (path + "." if path else "") + "packed-then-failed"   # octets were emitted although packing must fail
         if isinstance(out, dict) and "exc" in out:
             return (path + "." if path else "") + "exc.family"
         return (path + "." if path else "") + "accept"      # accepted although it must be refused
@@ -650,3 +653,16 @@ def outcome(fn, *args):
 
 def octs(b):
     return list(bytes(b))
+
+
+def after_pack(raw, fn):
+    """Run the post-pack part of a round-trip adapter. If it raises, the outcome records that octets HAD been emitted -
+    so that 'packing must fail' expectations are not satisfied by a later decode error."""
+    try:
+        return fn()
+    except MachineryError:
+        raise
+    except BaseException as e:  # noqa
+        if isinstance(e, (KeyboardInterrupt, SystemExit)):
+            raise
+        return {"exc": family(e), "late": 1, "octets": octs(raw)}
